@@ -6,7 +6,13 @@
 # *  switch from deprecated string module to string methods
 # *  use PEP 8 style
 
+import re
 import sys
+
+
+# Control characters that cannot appear in an XML 1.0 document, not even as
+# character references (e.g. the FS/GS/RS/US delimiters echoed in ISA11/ISA16)
+_rec_xml_illegal = re.compile('[\x00-\x08\x0b\x0c\x0e-\x1f]')
 
 
 class XMLWriter(object):
@@ -125,12 +131,14 @@ class XMLWriter(object):
     def _escape_cont(self, text):
         if text is None:
             return None
+        text = _rec_xml_illegal.sub('', text)
         return text.replace("&", "&amp;")\
             .replace("<", "&lt;").replace(">", "&gt;")
 
     def _escape_attr(self, text):
         if text is None:
             return None
+        text = _rec_xml_illegal.sub('', text)
         return text.replace("&", "&amp;") \
             .replace("'", "&apos;").replace("<", "&lt;")\
             .replace(">", "&gt;")
